@@ -117,6 +117,24 @@ VF_PROPERTY(typed_value_bytes, 6, "typed model value (90 types: integers, floats
 }
 
 #if MODEL_GROUP < 0 || MODEL_GROUP == 0
+// saving under non-default (loading) policies: a member or element that cannot be written must not be dropped silently, because the
+// header of its parent was already counted - the outcome is an exception or a well-formed document with matching counts
+namespace {
+using TpHours = std::chrono::time_point<std::chrono::system_clock, std::chrono::duration<int64_t, std::ratio<3600>>>;
+struct WithTimes { int a = 1; TpHours tp{}; std::chrono::duration<int64_t, std::ratio<86400>> days{}; int b = 2; std::vector<TpHours> list;
+	template <class A> void Serialize(A& ar) { ar << KeyValue("a", a) << KeyValue("tp", tp) << KeyValue("days", days) << KeyValue("b", b) << KeyValue("list", list); } };
+}
+VF_PROPERTY(save_with_skip_policies, 1, "class with time points / durations whose values do not fit the binary timestamp (hours / days counts near the 64-bit limits) as members and as vector elements, saved with OverflowNumberPolicy::Skip and MismatchedTypesPolicy::Skip to memory and to a stream: either an exception, or one well-formed MessagePack object whose map and array headers match what follows; non-trivial = at least one value is unrepresentable")
+{
+	auto big = [&]() { return c.src.coin() ? INT64_MAX - static_cast<int64_t>(c.src.draw(1000)) : INT64_MIN + static_cast<int64_t>(c.src.draw(1000)); };
+	WithTimes v; bool any = false; auto pick = [&]() { if (c.src.chance(1, 2)) { any = true; return big(); } return static_cast<int64_t>(c.src.draw(1000000)) - 500000; };
+	v.tp = TpHours(TpHours::duration(pick())); v.days = std::chrono::duration<int64_t, std::ratio<86400>>(pick()); for (size_t n = c.src.draw(4); n > 0; n--) v.list.push_back(TpHours(TpHours::duration(pick())));
+	Cfg cfg; cfg.stream = c.src.coin(); cfg.opt.overflowNumberPolicy = OverflowNumberPolicy::Skip; cfg.opt.mismatchedTypesPolicy = MismatchedTypesPolicy::Skip;
+	c.nontrivial = any; c.describe(vf::cat("save with Skip policies tp=", v.tp.time_since_epoch().count(), " days=", v.days.count(), " list=", v.list.size(), " stream=", cfg.stream));
+	std::string bytes; Outcome so = save<MsgPackArchive>(v, bytes, cfg);
+	if (!so.ok()) { c.label("save-rejected"); return; }
+	try { (void)refmp::Decoder::document(bytes, true); } catch (const std::exception& e) { c.fail("output is not one well-formed MessagePack object", vf::cat("saved under the Skip policies: ", e.what(), " bytes=", vf::hex(bytes.substr(0, 120)))); }
+}
 VF_PROPERTY(kf35_ts96_order, 1, "witness of KF-35")
 {
 	const int64_t secs = c.src.coin() ? -1 - static_cast<int64_t>(c.src.draw(1000000)) : (1LL << 34) + static_cast<int64_t>(c.src.draw(1000000));
